@@ -147,7 +147,7 @@ func (f *failingSource) Read(p []byte) (int, error) {
 
 // C09: I/O failures are never masked.
 func checkC09(a *checkArgs, r *Result) error {
-	r.Rule = "writer side: base histories (xz multi-block, LZMA2 with Flush, classic LZMA on plain and ByteWriter sinks) x every index k of the sink's Write calls x {fail once, fail forever, partial write + fail once, partial + forever} (ByteWriter sinks: one call per stream byte, every k up to 400 and about 2000 sampled later ones, fail once / forever); oracle: no panic (also in the calls issued after the failure, incl. Close), some call returns non-nil when the fault was reached, all-nil only with a complete decodable stream. Reader side: valid streams x every source offset k x {error alone, error together with data}; oracle: open or a Read returns the injected error (errors.Is), never a clean end. Exhaustive per base case. Model ties: the Lean models of the LZMA2 writer and of the xz writer on a failing sink (Model/Writer2F.lean, Model/XzWF.lean) are run on the same histories and fault plans as the real writers (every / sampled sink call index x 4 fault kinds, all calls issued also after the failure): per-call count, error class, sink length, final sink bytes and number of sink calls must be equal. Non-trivial: the fault was reached; distinct by (case, k, mode)."
+	r.Rule = "writer side: base histories (xz multi-block, LZMA2 with Flush, classic LZMA on plain and ByteWriter sinks) x every index k of the sink's Write calls x {fail once, fail forever, partial write + fail once, partial + forever} (ByteWriter sinks: one call per stream byte, every k up to 400 and about 2000 sampled later ones, fail once / forever); oracle: no panic (also in the calls issued after the failure, incl. Close), some call returns non-nil when the fault was reached, all-nil only with a complete decodable stream. Reader side: valid streams x every source offset k x {error alone, error together with data}; oracle: open or a Read returns the injected error (errors.Is), never a clean end. Exhaustive per base case. Model ties: the Lean models of the LZMA2 writer and of the xz writer on a failing sink (Model/Writer2F.lean, Model/XzWF.lean) are run on the same histories and fault plans as the real writers (every / sampled sink call index x 4 fault kinds, all calls issued also after the failure): per-call count, error class, sink length, final sink bytes and number of sink calls must be equal. The classic writer on a failing sink (Model/Writer1F.lean: plain sink behind bufio's 4096-byte buffer, io.ByteWriter sink reached byte by byte) is tied in the same way up to and including the call in which the first fault strikes (which call fails, its count, what the sink holds, the number of sink calls; with a plain sink every later Close must fail and the sink must not be called again). Non-trivial: the fault was reached; distinct by (case, k, mode)."
 	r.Exhaustive = true
 	rng := rand.New(rand.NewSource(a.seed))
 	nbase := 30
@@ -371,6 +371,7 @@ func checkC09(a *checkArgs, r *Result) error {
 	}
 	w2fTie(r, dp, rand.New(rand.NewSource(a.seed+77)), nfc)
 	xzwfTie(r, dp, rand.New(rand.NewSource(a.seed+78)), nfc/2)
+	w1fTie(r, dp, rand.New(rand.NewSource(a.seed+79)), nfc/2)
 	dp.Close()
 	// reader side
 	streams := libraryStreams(rng, nbase*2, 900)
